@@ -4,10 +4,13 @@ package storage
 // random histories of put/delete/flush over stacks of cache layers on each backend, every
 // range scan compared with a single ordered reference map. Bound: keys of 1..4 bytes over a
 // 3-letter alphabet under two 1-byte prefixes, up to 3 layers, up to 40 operations per
-// history, VERIF_BOUNDED_ITERS histories per backend (default 400), seed VERIF_SEED.
+// history, one put in eight stores an empty value, every scan is made twice (synchronous with full
+// keys, asynchronous with the prefix cut), VERIF_BOUNDED_ITERS histories per backend (default 400),
+// seed VERIF_SEED.
 
 import (
 	"bytes"
+	"context"
 	"fmt"
 	"math/rand"
 	"os"
@@ -114,6 +117,9 @@ func TestVerifBoundedC09(t *testing.T) {
 				switch c := r.Intn(10); {
 				case c < 5:
 					k, v := key(), []byte{byte(op + 1)}
+					if r.Intn(8) == 0 {
+						v = []byte{} // a stored empty value is a value, not an absent key
+					}
 					top.Put(k, v)
 					ref[string(k)] = v
 					hist = append(hist, fmt.Sprintf("put %x", k))
@@ -154,6 +160,22 @@ func TestVerifBoundedC09(t *testing.T) {
 					}
 					if !ok {
 						t.Fatalf("FAILING-INPUT backend=%s history=%v seek{prefix=%x start=%x backwards=%v} got %x want %x", name, hist, rng.Prefix, rng.Start, rng.Backwards, got, want)
+					}
+					// the asynchronous scan with the prefix cut off the keys: same entries, same order
+					ctx, cancel := context.WithCancel(context.Background())
+					var gotCut []string
+					var valsCut [][]byte
+					for kv := range top.SeekAsync(ctx, rng, true) {
+						gotCut = append(gotCut, string(kv.Key))
+						valsCut = append(valsCut, bytes.Clone(kv.Value))
+					}
+					cancel()
+					ok = len(gotCut) == len(want)
+					for i := 0; ok && i < len(gotCut); i++ {
+						ok = gotCut[i] == want[i][len(rng.Prefix):] && bytes.Equal(valsCut[i], ref[want[i]])
+					}
+					if !ok {
+						t.Fatalf("FAILING-INPUT backend=%s history=%v seekasync-cut{prefix=%x start=%x backwards=%v} got %x want %x (prefix cut)", name, hist, rng.Prefix, rng.Start, rng.Backwards, gotCut, want)
 					}
 					for k, v := range ref {
 						g, err := top.Get([]byte(k))
